@@ -238,12 +238,23 @@ def work_long(chunk):
     out, n = [], 0
     for cell in chunk:
         doc, val = long_token_doc(*cell)
+        script = ['reset', 'bytes.set B0 %s' % doc.hex(), 'parse new:C0 B0', 'item.get H0 %s' % U('_long'), 'blk.get C0 %s H0' % U('b'), 'item.get H0 %s' % U('_long'), 'item.get H0 %s' % U('_after'), 'item.get H0 %s' % U('_i%d' % (cell[2] - 1) if cell[2] else '_after')]
         try:
-            a = ex.run(['reset', 'bytes.set B0 %s' % doc.hex(), 'parse new:C0 B0', 'item.get H0 %s' % U('_long'), 'blk.get C0 %s H0' % U('b'), 'item.get H0 %s' % U('_long'), 'item.get H0 %s' % U('_after'), 'item.get H0 %s' % U('_i%d' % (cell[2] - 1) if cell[2] else '_after')], timeout=120)
+            a = ex.run(script, timeout=300)
         except Crash as c:
-            out.append(('long token', '%s/%d/%d/%s' % cell, 0, 0, 'crash/hang: %s %s' % (c, c.stderr[-600:])))
-            ex = worker_exec('fast')
-            continue
+            if str(c).startswith('timeout'):
+                # a deterministic script that ran out of time is re-run alone with a long limit before it is called a hang
+                ex = worker_exec('fast')
+                try:
+                    a = ex.run(script, timeout=1500)
+                except Crash as c2:
+                    out.append(('long token', '%s/%d/%d/%s' % cell, 0, 0, 'crash/hang: %s %s' % (c2, c2.stderr[-600:])))
+                    ex = worker_exec('fast')
+                    continue
+            else:
+                out.append(('long token', '%s/%d/%d/%s' % cell, 0, 0, 'crash/hang: %s %s' % (c, c.stderr[-600:])))
+                ex = worker_exec('fast')
+                continue
         n += 1
         got = a[5].get('v') if isinstance(a[5], dict) else None
         codes = sorted(set(e[0] for e in a[2].get('errs', []))) if isinstance(a[2], dict) else ['?']
@@ -314,7 +325,7 @@ def main():
     sizes = [65500, 65599, 65600, 65601, 65700, 131000, 131199, 131200, 131201, 131400, 200000, 262400, 262401, 400000]
     if tier == 'quick':
         sizes = [65599, 65601, 131199, 131201, 200000, 262401]
-    longs = [(kind, L, lead, e) for kind in ('text', 'triple', 'bare') for L in sizes for lead in ((0, 40, 3000) if tier == 'quick' else (0, 1, 40, 300, 3000, 20000))
+    longs = [(kind, L, lead, e) for kind in ('text', 'triple', 'bare') for L in sizes for lead in ((0, 40, 3000) if tier == 'quick' else (0, 1, 40, 300, 3000, 6000))
              for e in (('LF', 'CRLF') if tier == 'quick' else ('LF', 'CR', 'CRLF'))]
     nlong = 0
     for res in pmap(work_long, chunked(longs, max(1, len(longs) // (NPROC * 3))), ()):
@@ -328,7 +339,7 @@ def main():
     total += ntwo + nlong
     return rep.finish({'evaluations': total, 'distinct_nontrivial': len(PROBES) * len(STYLES) * len(bases) + ntwo + nlong, 'two_seam_documents': ntwo, 'long_token_documents': nlong,
                        'rule': '%d probe documents (every token kind, multi-unit constructs, text-field protocols, CIF 1.1 forms and 11 defect probes) x terminator styles %r x base offsets %r x paddings: quick = every padding that puts some byte of the probe on the next 4096-byte seam (+-8), thorough = every padding 0..4111; '
-                               'padding is comment lines of at most 2000 characters rendered in the same style; line numbers are compared after subtracting the known number of added lines. Plus: 864 documents with one terminator (LF / CR / CR LF) starting at offset 4096-2..+1 and one at 8192-2..+1, among items and inside a text field, all other terminators in each style (reference: the all-LF rendering of the same lines); plus single text-field / triple-quoted / bare tokens of 65500..400000 characters after 0..20000 leading items in each style, read back through the API and compared with the text that was generated. non-trivial = probe x style x base cells + those documents' % (len(PROBES), STYLES, bases),
+                               'padding is comment lines of at most 2000 characters rendered in the same style; line numbers are compared after subtracting the known number of added lines. Plus: 864 documents with one terminator (LF / CR / CR LF) starting at offset 4096-2..+1 and one at 8192-2..+1, among items and inside a text field, all other terminators in each style (reference: the all-LF rendering of the same lines); plus single text-field / triple-quoted / bare tokens of 65500..400000 characters after 0..6000 leading items in each style, read back through the API and compared with the text that was generated. non-trivial = probe x style x base cells + those documents' % (len(PROBES), STYLES, bases),
                        'samples': [PROBES[1][2], PROBES[3][2]], 'exhaustive': True},
                       ['reference = the LF-only rendering without padding of the same probe, parsed by the same library'])
 
